@@ -51,4 +51,14 @@ TEXT = {
   note='Trusted: Coq kernel; harness store FirstIndex semantics (least key).',
   technique='Coq proof (arithmetic, lia) + exhaustive differential sweep of compactLogsWithTrailing',
  ),
+ 'C04': dict(
+  level='Machine-checked theorems (Coq) over the model of appendEntries for EVERY follower state (cached last index bounding the store) and EVERY request with consecutive indices, '
+        'every store-failure pattern: nothing at or below prev changes; an existing entry is removed or replaced only at or above the first index whose stored term differs from the term sent; '
+        'on success every index sent holds the entry sent or the stored duplicate with the same term, and the previous entry matched (C04_append_entries, C04_success_prev_matched). '
+        'Tie: the bounded enumeration the property asks for (follower log x leader log x prev x batch x commit, duplicates, snapshot boundary, failures, crash cuts) on real servers through processRPC, '
+        'diffed against the extracted model; handler monitors on the implementation. Partial: the cross-server statement (pairwise log matching at every instant of every run) is checked by the cluster '
+        'monitors on real histories; its proof over all runs (prefix-of-leader invariant) is not finished in this round.',
+  note='Trusted: Coq kernel; harness stores; request entries are generated with consecutive indices (the handler itself does not check this). F3 (InstallSnapshot leaves a stale cached tail) is outside this handler.',
+  technique='Coq proof (induction over the request entries) + exhaustive bounded differential enumeration of appendEntries',
+ ),
 }
